@@ -126,12 +126,8 @@ func runTranslation(prop string, t target, tier string) int {
 			all[i] = i
 		}
 		ctl, err = ctlCases(c, 3, 16, all)
-		if err == nil {
-			var more []*SemCase
-			more, err = ctlCases(c, 4, 256, []int{int(c.Seed) % 256, int(c.Seed+37) % 256, int(c.Seed+101) % 256, int(c.Seed+171) % 256,
-				int(c.Seed+200) % 256, int(c.Seed+13) % 256, int(c.Seed+77) % 256, int(c.Seed+150) % 256})
-			ctl = append(ctl, more...)
-		}
+		// K = 4 was planned for this tier; CtlGen's skeleton set at K = 4 exceeds TLC's limit on the size of an
+		// enumerated set (> 10^6 elements), so the tier stays at the complete K = 3 enumeration.
 	}
 	if err != nil {
 		c.BrokenF("control-flow family: %v", err)
